@@ -18,17 +18,9 @@ def logq(ps):
 
 
 def quartic_mag(form, t):
-    """C10 magnitude sum of the quartic representation (k, c1..c4, u) at t: |k| + t*sum|c_j||x|^j + |u| t (e^x + sum_{j<5}|x|^j/j!)"""
-    mp = hp.mpmath
-    k, c, u = form[0], form[1:5], form[5]
-    x = -mp.log(hp.mpf(t))
-    ax = abs(x)
-    s = abs(hp.mpf(k))
-    for j, cj in enumerate(c):
-        s += hp.mpf(t) * abs(hp.mpf(cj)) * ax ** (j + 1)
-    tail = mp.exp(x) + sum(ax ** j / mp.factorial(j) for j in range(5))
-    s += abs(hp.mpf(u)) * hp.mpf(t) * tail
-    return s
+    """C10's magnitude sum of the quartic representation (k, c1..c4, u) at t: |k| + sum |t c_j x^j| + |u t x^5 R(x)|, x = -ln t"""
+    from props.c10 import exact_and_mag
+    return exact_and_mag(form, t)[1]
 
 
 def antideriv_mp(ps, t):
@@ -49,7 +41,7 @@ class P(Prop):
     ID = "C09"
     MODULE = "C09"
     THEOREMS = ([("C09_Log%d_%s" % (k, w)) for k in range(9) if k != 4 for w in ("indefinite", "integral", "knot", "deriv", "area")] +
-                ["C09_IntOfLog%d_evaluate" % k for k in range(9) if k != 4] + ["C09_Log4_indefinite", "C09_Log4_deriv"])
+                ["C09_IntOfLog%d_evaluate" % k for k in range(9) if k != 4] + ["C09_Log4_indefinite", "C09_Log4_evaluate_closed", "C09_Log4_evaluate_series", "C09_Log4_deriv"])
     KERNELS = (["Log<Poly%d>::indefinite" % k for k in range(9)] + ["Log<Poly%d>::integral" % k for k in range(9)] +
                ["IntOfLog<Poly%d>::evaluate" % k for k in range(9)] + ["IntOfLogPoly4::evaluate"])
     RULE = ("Log<PolyK>::integral(knot) followed by evaluation at points a,b > 0 (all nine degrees; K=4 through IntOfLogPoly4), "
@@ -72,6 +64,30 @@ class P(Prop):
                 c = dict(op="integral_eval", ty="Log<Poly%d>" % k, cs=[C.bits(x) for x in cs], knot=[C.bits(x) for x in knot],
                          ts=[C.bits(t) for t in ts], libm=True, meta={"class": "log_integral/%d" % k})
                 out.append(c)
+            if k == 4:
+                # the quartic representation: arguments close to 1 (series window, tail term dominant for pure ln^4) and
+                # extremely small ones (closed-form branch close to the overflow threshold of exp)
+                for _ in range(per):
+                    style = rng.choice(["near_one", "near_one", "tiny", "switch"])
+                    if rng.random() < 0.5:
+                        cs = [0.0, 0.0, 0.0, 0.0, rng.choice([1.0, -2.0, rng.uniform(-3, 3)])]
+                    else:
+                        cs = [rng.choice([0.0, rng.uniform(-3, 3), rng.small_int(-5, 5)]) for _ in range(5)]
+                    if style == "near_one":
+                        near = lambda: 1.0 + rng.choice([-1, 1]) * rng.choice([rng.uniform(1e-4, 1.2e-2), 2.0 ** -rng.randint(7, 40), rng.uniform(1e-3, 0.3)])
+                        knot = [rng.choice([1.0, near()]), rng.choice([0.0, 2.0, rng.uniform(-5, 5)])]
+                        ts = [near(), near(), knot[0]]
+                    elif style == "tiny":
+                        tiny = lambda: rng.choice([1.0, rng.uniform(1, 9)]) * 10.0 ** -rng.randint(290, 306)
+                        knot = [rng.choice([1.0, tiny()]), rng.choice([0.0, 5.0])]
+                        ts = [tiny(), tiny(), knot[0]]
+                    else:
+                        import math
+                        sw = lambda: math.exp(-rng.choice([-1.71, 1.72]) + rng.uniform(-1e-3, 1e-3))
+                        knot = [rng.choice([1.0, sw()]), rng.choice([0.0, 2.0])]
+                        ts = [sw(), sw(), knot[0]]
+                    out.append(dict(op="integral_eval", ty="Log<Poly4>", cs=[C.bits(x) for x in cs], knot=[C.bits(x) for x in knot],
+                                    ts=[C.bits(t) for t in ts], libm=True, meta={"class": "log_integral/4/" + style}))
             for _ in range(max(1, per // 4)):
                 cs = [rng.uniform(-3, 3) for _ in range(k + 1)]
                 out.append(dict(op="integral_eval", ty="Log<Poly%d>" % k, cs=[C.bits(x) for x in cs], knot=None,
